@@ -380,7 +380,7 @@ Proof.
     - intros ip' len lvl' Hlen. rewrite E3 by (try (intro E; inversion E); lia). apply H4. intro E; inversion E; lia. }
   destruct k' as [|k''].
   { (* length 1: count the letters of exactly that level *)
-    change (Z.of_nat K =? 1)%Z with true. cbv iota.
+    change (Z.of_nat K =? 1)%Z with true. cbn [negb]. cbv iota.
     match goal with |- context [mfor (te_next e) ?body kc2 ?k] =>
       destruct (mfor_fold_rel
                 (fun kcX (m : N) => kfind kcX ip (Z.of_nat K) (Z.of_nat lvl) = Some (Z.of_N m) /\
@@ -401,7 +401,7 @@ Proof.
       + intros ip' len lvl' _ Hne. now apply RE2.
       + reflexivity. }
   (* longer: the recursion *)
-  replace (Z.of_nat K =? 1)%Z with false by (symmetry; apply Z.eqb_neq; lia). cbv iota.
+  replace (Z.of_nat K =? 1)%Z with false by (symmetry; apply Z.eqb_neq; lia). cbn [negb]. cbv iota.
   set (k' := S k'') in *.
   set (step := fun (acc : N * cache) (cl : N * nat) =>
                  if Nat.leb (snd cl) lvl then
@@ -419,7 +419,7 @@ Proof.
               step body k (te_next e) kc2 (0%N, c)) as (kcE & EE & RE1 & RE2 & RE3 & RE4) end.
   - cbn [fst snd]. split; [exact H3|]. split; [|split; [reflexivity | reflexivity]].
     intros ip' k2 lvl' Hk2. rewrite H4 by (intro E; inversion E; lia). apply HR. lia.
-  - intros [ch l] kcX [a cX] Hcl (R1 & R2 & R3 & R4). cbn [fst snd] in *. unfold step. cbn [fst snd].
+  - intros [ch l] kcX [a cX] Hcl (R1 & R2 & R3 & R4). cbn [fst snd] in *. unfold step. cbn [fst snd]. cbv zeta.
     rewrite Zleb_nat. destruct (Nat.leb l lvl) eqn:El; [|eexists; split; [reflexivity|]; cbn [fst snd]; auto].
     apply Nat.leb_le in El. rewrite kc_get3_kfind, R1. cbn [dict_get bind].
     rewrite pyslice_tl. change (tl ip ++ [ch]) with (shift ip ch).
@@ -606,10 +606,14 @@ Proof.
         assert (Hlen : len <= length (tt_ln T))
           by (apply (len_levels_le T len li); rewrite Hsplit3; apply in_or_app; right; now left).
         unfold ks_step_len. rewrite Hst3. unfold len_skipped.
-        replace (Z.of_nat len - 1 + 1)%Z with (Z.of_nat len) by lia. rewrite Zltb_nat.
-        destruct (Nat.ltb len (tt_ngram T)) eqn:ES.
+        replace (Z.of_nat len - 1 + 1)%Z with (Z.of_nat len) by lia. cbv zeta.
+        (* `if length < ngram: continue` then `if info <= lmi:`, or the two tests merged into one `and` *)
+        rewrite ?Zltb_nat, ?Zleb_nat.
+        assert (Hanti : Nat.leb (tt_ngram T) len = negb (Nat.ltb len (tt_ngram T))) by apply Nat.leb_antisym.
+        rewrite ?Hanti. clear Hanti.
+        destruct (Nat.ltb len (tt_ngram T)) eqn:ES; cbn [negb andb].
         { rewrite Hst3. eexists. split; [reflexivity|]. unfold rel_lv. auto. }
-        apply Nat.ltb_ge in ES. rewrite Zleb_nat.
+        apply Nat.ltb_ge in ES.
         destruct (Nat.leb li lmi) eqn:EL.
         2:{ rewrite Hst3. eexists. split; [reflexivity|]. unfold rel_lv. auto. }
         apply Nat.leb_le in EL.
